@@ -25,6 +25,7 @@ ATTACH = G.ATTACH
 DETACH = G.DETACH
 SEPS_FULL = ATTACH + DETACH
 SEPS_RED = ('', ' ', '\n', ' \n\t', '\n\n', '.', '%c\n')
+SEPS_RED5 = ('', ' ', '\n', '\n\n', '.')
 NAMES = ('zq', 'zq*', 'Zq', 'q', 'zqlongname', 'includegraphicszq')
 
 # (body, [its top-level non-text elements])
@@ -218,7 +219,7 @@ def _oracle(src, ast, extra, parsed):
             def fails(s, a):
                 p = common.impl_parse(s, 0, a.skip)
                 return p[1] is None or G.expected_canon(a) != G.normalise(common.canon_root(p[1]))
-            small, sast = G.shrink(ast, fails, 200)
+            small, sast = G.shrink(ast, fails, 200) if L.may_shrink() else (src, ast)
             return [('tree-mismatch', 'tree differs from the generating tree (separators before arguments)',
                      {'input': small, 'skip': list(sast.skip), 'original': src[:300]})]
         return None
@@ -236,7 +237,7 @@ def _nontrivial(src, ast, extra):
 
 # ----------------------------------------------------------------------------- jobs
 
-def _product_jobs(ctx, shapes, sepset, cis, tag, model, tols, per=3000):
+def _product_jobs(ctx, shapes, sepset, cis, tag, model, tols, per=3000, oracle=True):
     jobs = []
     for ci in cis:
         for (k, m) in shapes:
@@ -245,7 +246,7 @@ def _product_jobs(ctx, shapes, sepset, cis, tag, model, tols, per=3000):
             while lo < total:
                 n = min(per, total - lo)
                 jobs.append({'seed': '%s/%d/%s/%d/%d%d/%d' % (ID, ctx.seed, tag, ci, k, m, lo), 'n': n, 'lo': lo,
-                             'gen': _gen_product, 'oracle': _oracle, 'nontrivial': _nontrivial, 'model': model,
+                             'gen': _gen_product, 'oracle': _oracle if oracle else None, 'nontrivial': _nontrivial, 'model': model,
                              'tols': tols, 'shape': (k, m), 'sepset': sepset, 'ci': ci})
                 lo += n
     return jobs
@@ -261,11 +262,13 @@ def _all_jobs(ctx, model, scale=1):
         jobs += _product_jobs(ctx, upto(3), SEPS_RED, allc[1:], 'red3', model, (0,))
         jobs += _product_jobs(ctx, [s for s in SHAPES if s[0] + s[1] == 4], SEPS_RED, [0], 'red4', model, (0,))
     else:
-        jobs += _product_jobs(ctx, SHAPES, SEPS_RED, [0], 'redall', model, (0,), per=8000)
-        jobs += _product_jobs(ctx, upto(3), SEPS_FULL, allc, 'full3', model, (0, 1), per=8000)
-        jobs += _product_jobs(ctx, [s for s in SHAPES if s[0] + s[1] == 4], SEPS_FULL, [0], 'full4', model, (0,), per=8000)
-        jobs += _product_jobs(ctx, upto(4), SEPS_RED, allc[1:], 'red4', model, (0, 1), per=8000)
-    nrand = ctx.pick(10000, 200000) * scale
+        jobs += _product_jobs(ctx, upto(6), SEPS_RED, [0], 'red6', model, (0,), per=8000)
+        jobs += _product_jobs(ctx, [(3, 4)], SEPS_RED5, [0], 'red7', model, (0,), per=8000)
+        jobs += _product_jobs(ctx, upto(3), SEPS_FULL, allc, 'full3', model, (0,), per=8000)
+        if model:
+            jobs += _product_jobs(ctx, upto(2), SEPS_FULL, allc, 'full2t', model, (1,), per=8000, oracle=False)
+        jobs += _product_jobs(ctx, upto(4), SEPS_RED, allc[1:], 'red4', model, (0,), per=8000)
+    nrand = ctx.pick(10000, 100000) * scale
     for k, n in enumerate(L.split(nrand, 2500)):
         jobs.append({'seed': '%s/%d/rand/%d' % (ID, ctx.seed, k), 'n': n, 'gen': _gen_random, 'oracle': _oracle,
                      'nontrivial': _nontrivial, 'model': model, 'tols': (0, 1)})
@@ -289,9 +292,9 @@ def _run(ctx, model=True, scale=1):
 
 def _rule(ctx):
     if ctx.thorough:
-        prod = ('separator x position product: all 20 shapes (0..3 brackets, 0..4 braces) over 7 separator classes at top '
-                'level, all 20 separators for up to 3 groups in every context and for 4 groups at top level, 7 classes '
-                'for up to 4 groups in every context')
+        prod = ('separator x position product: all 20 shapes (0..3 brackets, 0..4 braces) at top level over 7 separator '
+                'classes (3+4 groups: 5 classes), all 20 separators for up to 3 groups in every context, 7 classes for '
+                'up to 4 groups in every context')
     else:
         prod = ('separator x position product for up to 3 groups: all 20 separators at top level, 7 separator classes in '
                 'each of the other 9 contexts; 4 groups over 7 classes at top level')
